@@ -71,6 +71,7 @@ type result struct {
 	Unsup       []string              `json:"unsupported,omitempty"`
 	Tail        map[string]any        `json:"tail,omitempty"`
 	Mutates     []string              `json:"mutates,omitempty"`
+	Canary      map[string][]string   `json:"canary,omitempty"`
 	WallS       float64               `json:"wall_s"`
 }
 
@@ -87,7 +88,11 @@ type runner struct {
 	// baseline: planner fields that even the simplest plan of a language writes (set-once aliases and caches)
 	baseline map[string]map[string]bool
 	timers   map[string]float64
+	shard    int
+	shards   int
 }
+
+func (r *runner) mine(i int) bool { return r.shards <= 1 || i%r.shards == r.shard }
 
 func (r *runner) count(lang, mode, class string) {
 	r.res.Classes[lang+"/"+mode+"/"+class]++
@@ -111,15 +116,25 @@ func (r *runner) noteWrites(s *spec, a *arm) {
 	}
 }
 
-// culprit names ONE planner field written by earlier executions as the structural part of a signature: fields that
-// even the simplest plan of the language writes (set-once aliases and sub-select caches, whose re-execution is
-// observed to be harmless there) are left out; a rewritten value is preferred to a pointer that was set, a pointer
+// harmless: the planner fields Replan.tla classifies as set-once-idempotent (every later execution finds what it
+// would have computed itself), as overwritten by every call before use, or as recomputed from immutable inputs on
+// every call. (A fixed list read off the unchanged code: a field a change adds is never in it.)
+var harmless = map[string]bool{
+	"MainFinalizerPlanner.Alias": true, "FingerprintFilterPlanner.FingerprintSelectWithCache": true,
+	"LabelsJoinPlanner.FpCache": true, "LabelsJoinPlanner.LabelsCache": true, "ByWithoutPlanner.FPCache": true,
+	"UnwrapPlanner.fpCache": true, "UnwrapPlanner.labelsCache": true, "PlannerDrop.LabelsCache": true, "PlannerDrop.fpCache": true,
+	"LineFilterPlanner.re": true, "ParserPlanner.logfmtFields": true, "ParserPlanner.parameterTypedValues": true, "ByWithoutPlanner.labels": true,
+	"AttrConditionPlanner.sqlConds": true, "AttrConditionPlanner.alias": true, "AggregatorPlanner.fCmpVal": true,
+	"SimpleRequestProcessor.main": true, "ComplexRequestProcessor.main": true, "SimpleTagsV2RequestProcessor.main": true,
+}
+
+// culprit names ONE planner field written by earlier executions as the structural part of a signature: the harmless
+// fields are left out; a rewritten value is preferred to a pointer that was set, a pointer
 // to a new object to an alias of one already seen.
 func (r *runner) culprit(lang string, prior []fieldWrite) string {
-	base := r.baseline[lang]
 	best, bestRank := "", -1
 	for _, w := range prior {
-		if w.Field == "" || base[w.Field] {
+		if w.Field == "" || harmless[w.Field] {
 			continue
 		}
 		// only fields of planner objects, not of the cached statements hanging below them
@@ -133,8 +148,12 @@ func (r *runner) culprit(lang string, prior []fieldWrite) string {
 		if w.After == "<shared>" {
 			rank = 0
 		}
-		if rank > bestRank || (rank == bestRank && w.Field < best) {
-			best, bestRank = w.Field, rank
+		name := w.Field
+		if w.Disc != "" {
+			name += "|" + w.Disc
+		}
+		if rank > bestRank || (rank == bestRank && name < best) {
+			best, bestRank = name, rank
 		}
 	}
 	if best == "" {
@@ -171,7 +190,12 @@ func (r *runner) report(s *spec, mode, base string, k int, w window, v verdict, 
 		}
 		f.Signature = fmt.Sprintf("nondeterministic|%s|%s|%s", s.Lang, entry, v.TokDiff)
 	} else {
-		f.Signature = fmt.Sprintf("stateful|%s|%s|%s", s.Lang, r.culprit(s.Lang, prior), v.TokDiff)
+		// the written planner field is the structure of the finding; the shape of the difference is added only when no
+		// planner field explains it
+		f.Signature = fmt.Sprintf("stateful|%s|%s", s.Lang, r.culprit(s.Lang, prior))
+		if strings.HasSuffix(f.Signature, "no-planner-field") {
+			f.Signature += "|" + v.TokDiff
+		}
 	}
 	switch v.Class {
 	case "MEANING", "ERROR":
@@ -198,6 +222,14 @@ func (r *runner) emitTrace(ev map[string]any) {
 
 func (r *runner) setup(s *spec) {
 	r.x.forceComplexity(s.Complexity)
+	// C14_ALLDRY: statement-only mode (used after the planners' own in-process stages crashed the driver)
+	r.x.DB.dry = (s.Dry && os.Getenv("C14_NODRY") == "") || os.Getenv("C14_ALLDRY") != ""
+}
+
+// proc: one Process call on a plan object of spec s
+func (r *runner) proc(s *spec, sub subject, w window, k int, probe bool) *arm {
+	r.setup(s)
+	return sub.process(r.x, w, k, probe)
 }
 
 // freshArms: a new plan object for every window.
@@ -206,6 +238,7 @@ func (r *runner) freshArms(s *spec, base string, wins []window) ([]*arm, error) 
 	if a, ok := r.fresh[key]; ok {
 		return a, nil
 	}
+	r.setup(s)
 	var arms []*arm
 	for k, w := range wins {
 		sub, err := s.Make()
@@ -237,7 +270,7 @@ func (r *runner) reexec(s *spec, base string, wins []window) bool {
 	var first *arm
 	var prior []fieldWrite
 	for k, w := range wins {
-		a := sub.process(r.x, w, k+1, true)
+		a := r.proc(s, sub, w, k+1, os.Getenv("C14_NOPROBE") == "")
 		if k == 0 {
 			first = a
 		}
@@ -264,7 +297,7 @@ func (r *runner) reexec(s *spec, base string, wins []window) bool {
 // answers no rows) unless the statements depend on earlier answers (complex TraceQL requests).
 func (r *runner) determinism(s *spec, base string, wins []window, n int) {
 	r.setup(s)
-	dry := s.Complexity == 0
+	dry := s.Complexity == 0 || os.Getenv("C14_ALLDRY") != ""
 	var ref *arm
 	if !dry {
 		fresh, err := r.freshArms(s, base, wins)
@@ -281,11 +314,12 @@ func (r *runner) determinism(s *spec, base string, wins []window, n int) {
 		}
 		r.x.DB.dry = dry
 		a := sub.process(r.x, wins[0], 1, false)
-		r.x.DB.dry = false
+		r.setup(s)
 		r.res.Stats["determinism_translations"]++
 		if ref == nil {
 			ref = a
 			// the statement that does not depend on answers must also equal the one of the first translation in this process
+			r.setup(s)
 			if fresh, err := r.freshArms(s, base, wins); err == nil && len(fresh[0].SQL) > 0 && len(a.SQL) > 0 && fresh[0].SQL[0] != a.SQL[0] {
 				one, two := &arm{K: 1, SQL: a.SQL[:1]}, &arm{K: 1, SQL: fresh[0].SQL[:1]}
 				r.report(s, "determinism", base, 1, wins[0], r.x.compareArms(one, two), one, two, nil, nil, "")
@@ -299,10 +333,6 @@ func (r *runner) determinism(s *spec, base string, wins []window, n int) {
 
 // interleave: two plan objects alive at the same time, their Process calls interleaved.
 func (r *runner) interleave(s1, s2 *spec, base string, wins []window) {
-	if s1.Complexity != s2.Complexity {
-		return
-	}
-	r.setup(s1)
 	f1, err := r.freshArms(s1, base, wins)
 	if err != nil {
 		return
@@ -330,14 +360,14 @@ func (r *runner) interleave(s1, s2 *spec, base string, wins []window) {
 	var priorA, priorB []fieldWrite
 	for _, who := range order {
 		if who == 0 {
-			arm := a.process(r.x, wins[ka], ka+1, true)
+			arm := r.proc(s1, a, wins[ka], ka+1, true)
 			v := r.x.compareArms(arm, f1[ka])
 			r.report(s1, "interleave", base, ka+1, wins[ka], v, arm, f1[ka], nil, priorA, "")
 			priorA = append(priorA, arm.Writes...)
 			r.emitTrace(map[string]any{"ev": "Process", "p": pa, "k": ka + 1, "writes": writeNames(arm.Writes), "same": v.Class != "MEANING" && v.Class != "ERROR", "class": v.Class})
 			ka++
 		} else {
-			arm := b.process(r.x, wins[kb], kb+1, true)
+			arm := r.proc(s2, b, wins[kb], kb+1, true)
 			v := r.x.compareArms(arm, f2[kb])
 			r.report(s2, "interleave", base, kb+1, wins[kb], v, arm, f2[kb], nil, priorB, "")
 			priorB = append(priorB, arm.Writes...)
@@ -361,6 +391,8 @@ func main() {
 	tracep := fs.String("trace", "", "trace file (ndjson) for TLC trace validation")
 	cluster := fs.String("cluster", "", "cluster name (\"\" = single node)")
 	noTail := fs.Bool("notail", false, "skip the real Tail")
+	shard := fs.Int("shard", 0, "this process handles the specs/cases/tails with index %% shards == shard")
+	shards := fs.Int("shards", 1, "number of shards")
 	query := fs.String("q", "", "adhoc: one query")
 	lang := fs.String("lang", "logql", "adhoc: logql|traceql")
 	fs.Parse(os.Args[2:])
@@ -389,7 +421,7 @@ func main() {
 	}
 	res := &result{Seed: *seed, Tier: *tier, Stats: map[string]int{}, Classes: map[string]int{}, Fields: map[string]*fieldStat{}, PlanErrors: map[string]string{}}
 	r := &runner{x: x, res: res, rng: rand.New(rand.NewSource(*seed)), fresh: map[string][]*arm{}, keep: map[string]int{}, logWrites: map[string][][]fieldWrite{},
-		baseline: map[string]map[string]bool{}, timers: map[string]float64{}}
+		baseline: map[string]map[string]bool{}, timers: map[string]float64{}, shard: *shard, shards: *shards}
 	for t, n := range x.W.Store.Counts {
 		res.Stats["rows_"+t] = n
 	}
@@ -415,6 +447,8 @@ func main() {
 		r.reexec(s, "B", windowsB())
 	case "probe":
 		r.probeFields()
+	case "xcompare":
+		r.xcompare(*casesp)
 	case "run":
 		r.runAll(*tier, *casesp, !*noTail)
 	default:
